@@ -65,6 +65,20 @@ class Session(object):
         self.workdir = workdir or tempfile.mkdtemp(prefix='gowp-')
         self.unbound = [k for k in self.specs.funcs if k not in self.byspec and not self.specs.funcs[k].trusted and '::' in k and k.split('::')[0] in pkgs]
 
+    def alias_for(self, full):
+        """old name -> new name for locals renamed since obligations.lock.json was written"""
+        if not hasattr(self, '_locklocals'):
+            lp = os.path.join(VERIF, 'obligations.lock.json')
+            try:
+                self._locklocals = json.load(open(lp)).get('_locals', {})
+            except (IOError, ValueError):
+                self._locklocals = {}
+        fn = self.prog.funcs.get(full)
+        old = self._locklocals.get(short_fn(full))
+        if fn is None or not old:
+            return {}
+        return rename_map(old, locals_of(fn))
+
     def bind_closures(self):
         """contracts written as `func F closure @"text"`: bound to the innermost function literal of F whose
         source lines contain the text"""
@@ -205,6 +219,8 @@ class Session(object):
                 v = LemmaVerifier(self.prog, self.specs, lem, lem.pkg, resolver=self.resolver)
             else:
                 v = Verifier(self.prog, self.specs, full, resolver=self.resolver)
+                v.local_alias = self.alias_for(full)
+                v.alias_resolver = self.alias_for
                 v.configure(spec)
             ctx = v.run()
         except (Unsupported, SpecError) as ex:
@@ -245,6 +261,8 @@ class Session(object):
                 spec = None
             else:
                 v = Verifier(self.prog, self.specs, full, resolver=self.resolver)
+                v.local_alias = self.alias_for(full)
+                v.alias_resolver = self.alias_for
                 v.configure(spec)
             ctx = v.run()
         except Exception as ex:
@@ -627,6 +645,38 @@ def replay_file(path):
     return check_property(rec['property'], 'quick', 0)
 
 
+def locals_of(fn):
+    """named parameters and local variables of a function in declaration order: [[name, type], ...]"""
+    out = [[p['name'], p['type']] for p in fn.get('params') or []]
+    al = []
+    for b in fn.get('blocks') or []:
+        for ins in b['instrs']:
+            if ins.get('op') == 'Alloc' and ins.get('comment') and ins.get('line'):
+                al.append(((ins.get('line', 0), ins.get('col', 0)), [ins['comment'], ins.get('elem', '')]))
+    al.sort(key=lambda x: x[0])
+    seen = set(n for n, _ in out)
+    for _, e in al:
+        out.append(e)
+    return out
+
+
+def rename_map(old, new):
+    """locals renamed since the lock was written: same number of declarations, same types, different names at
+    some positions.  Contracts written with the old names are re-bound to the new ones."""
+    if not old or len(old) != len(new):
+        return {}
+    m = {}
+    cur = set(n for n, _ in new)
+    for (on, ot), (nn, nt) in zip(old, new):
+        if ot != nt:
+            return {}
+        if on != nn:
+            if on in cur or (on in m and m[on] != nn):
+                return {}
+            m[on] = nn
+    return m
+
+
 CLAUSE_KINDS = ('post', 'inv', 'dec', 'effect', 'assert', 'lemma', 'wf')
 
 
@@ -656,6 +706,8 @@ def write_lock(props):
                 print('lock: %s: %s' % (f, g['error']))
                 continue
             d[short_fn(f)] = sorted(set(k_ for k_ in (clause_key(ob) for ob in g['obs']) if k_))
+            if f in ses.prog.funcs:
+                lock.setdefault('_locals', {})[short_fn(f)] = locals_of(ses.prog.funcs[f])
         lock[prop] = d
         shutil.rmtree(ses.workdir, ignore_errors=True)
         print("locked %s: %d functions, %d contract clauses" % (prop, len(d), sum(len(v) for v in d.values())))
